@@ -48,11 +48,20 @@ LmBadOf(o, st, params) ==
         \* sqrt(tol / lambda_min(J^T J)); lam is half the inverse-iteration estimate of lambda_min at the target (never
         \* below the proven AM-GM lower bound); designs with lam < 1e-3 are not "well-conditioned": only termination,
         \* finiteness and the error cases are judged on them
+        \* ... and against any better point that can be exhibited: if one full Gauss-Newton step from the result lowers S
+        \* by more than the same bound, the result is not within the tolerance of the minimum - whatever the minimum is.
+        \* This needs no knowledge of the minimiser, so it also judges noisy data fitted by non-linear models
+        gn == GaussNewtonStep(o.model, o.xs, o.ys, p)
+        gain == FSub(SumSq(o.model, o.xs, o.ys, p), SumSq(o.model, o.xs, o.ys, gn))
+        lamp == LambdaMinWorking(NormalMatrix(o.model, o.xs, p))
+        wellp == FLe(FOfDec("1e-3"), lamp)
         lam == LambdaMinWorking(NormalMatrix(o.model, o.xs, target))
         wellc == FLe(FOfDec("1e-3"), lam)
         bound == FMul(FMul(KF, scale), FAdd(FSqrt(FDiv(o.tol, lam)), FOfDec("1e-7")))
     IN (IF ~VFinite(p) THEN {"fit_result_is_finite"} ELSE {})
        \cup (IF VFinite(p) /\ judged /\ wellc /\ ~FLe(excess, sbound) THEN {"sum_of_squares_within_tolerance_of_its_minimum"} ELSE {})
+       \cup (IF VFinite(p) /\ wellp /\ VFinite(gn) /\ FIsFinite(gain) /\ ~FLe(gain, sbound)
+               THEN {"no_gauss_newton_step_from_the_result_lowers_the_sum_of_squares_by_more_than_the_tolerance"} ELSE {})
        \cup (IF VFinite(p) /\ wellc /\ IsLinearModel(o.model) /\ ~FLe(VDistInf(p, target), bound) THEN {"linear_model_gets_the_least_squares_parameters"} ELSE {})
        \cup (IF VFinite(p) /\ wellc /\ ~IsLinearModel(o.model) /\ o.recover /\ ~FLe(VDistInf(p, target), bound)
                THEN {"model_generated_data_recover_the_true_parameters"} ELSE {})
